@@ -83,7 +83,7 @@ def run(pid, tier):
     vlib.ensure_dirs()
     r = vlib.run_tlc("MC_http", "MC_http.cfg", "C20-mc", workers=2, timeout=600)
     if not r.ok:
-        log(r.error_text)
+        log(r.error_text[:1500])
         path = vlib.save_replay(pid, "mc", {"kind": "tlc-counterexample", "module": "MC_http", "cfg": "MC_http.cfg", "output": r.error_text})
         vlib.write_evidence(pid, tier, "model_checking", {"evaluations": 1, "distinct_nontrivial": 0, "explanation": "TLC error", "samples": [r.error_text[:300]]}, [], time.time() - t0, 1)
         return vlib.finish(pid, [(path, "TLC reports an error on DHttp")])
